@@ -15,7 +15,14 @@ use std::collections::BTreeMap;
 
 #[derive(Clone, Debug, Serialize, Deserialize, PartialEq)]
 pub enum PCond {
-    Atom { field: u8, op: u8, lit: i64 },
+    /// `kind`: how the literal is typed in the rule — 0 integer, 1 float (`lit as f64`), 2 string (`lit.to_string()`)
+    Atom {
+        field: u8,
+        op: u8,
+        lit: i64,
+        #[serde(default)]
+        kind: u8,
+    },
     /// harness-registered pure custom function: isPos(field) == true/false
     Func { field: u8, want: bool },
     And(Box<PCond>, Box<PCond>),
@@ -46,7 +53,7 @@ fn fname(f: u8) -> String {
 
 fn to_group(c: &PCond) -> ConditionGroup {
     match c {
-        PCond::Atom { field, op, lit } => {
+        PCond::Atom { field, op, lit, kind } => {
             let o = match op % 6 {
                 0 => Operator::Equal,
                 1 => Operator::NotEqual,
@@ -55,7 +62,12 @@ fn to_group(c: &PCond) -> ConditionGroup {
                 4 => Operator::GreaterThan,
                 _ => Operator::GreaterThanOrEqual,
             };
-            ConditionGroup::single(Condition::new(fname(*field), o, Value::Integer(*lit)))
+            let v = match kind % 3 {
+                0 => Value::Integer(*lit),
+                1 => Value::Number(*lit as f64),
+                _ => Value::String(lit.to_string()),
+            };
+            ConditionGroup::single(Condition::new(fname(*field), o, v))
         }
         PCond::Func { field, want } => ConditionGroup::single(Condition::with_function("isPos".to_string(), vec![fname(*field)], Operator::Equal, Value::Boolean(*want))),
         PCond::And(a, b) => ConditionGroup::and(to_group(a), to_group(b)),
@@ -66,7 +78,7 @@ fn to_group(c: &PCond) -> ConditionGroup {
 
 fn eval(c: &PCond, f: &[i64; 4]) -> bool {
     match c {
-        PCond::Atom { field, op, lit } => {
+        PCond::Atom { field, op, lit, .. } => {
             let v = f[*field as usize % 4];
             match op % 6 {
                 0 => v == *lit,
@@ -90,6 +102,17 @@ fn has_func(c: &PCond) -> bool {
         PCond::Atom { .. } => false,
         PCond::And(a, b) | PCond::Or(a, b) => has_func(a) || has_func(b),
         PCond::Not(a) => has_func(a),
+    }
+}
+
+/// does the condition compare an integer field with a literal of another type? (outside the typed
+/// core: the harness's own evaluation does not judge such a rule; the sequential path still does)
+fn has_foreign_literal(c: &PCond) -> bool {
+    match c {
+        PCond::Func { .. } => false,
+        PCond::Atom { kind, .. } => kind % 3 != 0,
+        PCond::And(a, b) | PCond::Or(a, b) => has_foreign_literal(a) || has_foreign_literal(b),
+        PCond::Not(a) => has_foreign_literal(a),
     }
 }
 
@@ -183,7 +206,7 @@ pub fn scenario(w: &ParWorkload, slot: &Shared) {
     // second, independent reference — only valid while the workers do not write facts
     if after == before {
         count(slot, "probe.workers_left_facts_unchanged");
-        for (i, r) in w.rules.iter().enumerate().filter(|(_, r)| r.enabled) {
+        for (i, r) in w.rules.iter().enumerate().filter(|(_, r)| r.enabled && !has_foreign_literal(&r.cond)) {
             let mine = eval(&r.cond, &w.facts);
             let theirs = got.iter().find(|(n, _)| *n == format!("R{i}")).map(|(_, f)| *f);
             if theirs != Some(mine) {
@@ -208,6 +231,9 @@ pub fn scenario(w: &ParWorkload, slot: &Shared) {
     if w.rules.iter().any(|r| has_func(&r.cond)) {
         count(slot, "probe.custom_function_condition");
     }
+    if w.rules.iter().any(|r| has_foreign_literal(&r.cond)) {
+        count(slot, "probe.literal_of_another_type_than_the_field");
+    }
     if !w.enabled {
         count(slot, "probe.parallelism_off");
     }
@@ -219,7 +245,7 @@ pub fn generate(rng: &mut Rng, _thorough: bool) -> ParWorkload {
             if rng.chance(1, 5) {
                 PCond::Func { field: rng.below(4) as u8, want: rng.chance(1, 2) }
             } else {
-                PCond::Atom { field: rng.below(4) as u8, op: rng.below(6) as u8, lit: rng.range(-1, 3) }
+                PCond::Atom { field: rng.below(4) as u8, op: rng.below(6) as u8, lit: rng.range(-1, 3), kind: if rng.chance(1, 8) { 1 + rng.below(2) as u8 } else { 0 } }
             }
         } else {
             match rng.usize(5) {
@@ -231,9 +257,21 @@ pub fn generate(rng: &mut Rng, _thorough: bool) -> ParWorkload {
     }
     let n = 1 + rng.usize(24);
     let sal = [0i32, 0, 0, 5, -2];
-    let rules = (0..n)
-        .map(|_| PRule { salience: *rng.pick(&sal), enabled: !rng.chance(1, 8), cond: gen_cond(rng, 0), set: if rng.chance(1, 3) { Some((rng.below(4) as u8, rng.range(-1, 3))) } else { None } })
-        .collect();
+    let mut rules: Vec<PRule> = Vec::new();
+    for _ in 0..n {
+        let mut r = PRule { salience: *rng.pick(&sal), enabled: !rng.chance(1, 8), cond: gen_cond(rng, 0), set: if rng.chance(1, 3) { Some((rng.below(4) as u8, rng.range(-1, 3))) } else { None } };
+        // 1 in 6: a near-twin of an earlier rule on the same level — the same guard with the literal typed
+        // differently, or the same guard with the neighbouring literal — so that anything that identifies
+        // "the same condition" too coarsely has something to confuse
+        if !rules.is_empty() && rng.chance(1, 6) {
+            let e = rules[rng.usize(rules.len())].clone();
+            if let PCond::Atom { field, op, lit, kind } = e.cond {
+                r.salience = e.salience;
+                r.cond = if rng.chance(2, 3) { PCond::Atom { field, op, lit, kind: (kind + 1 + rng.below(2) as u8) % 3 } } else { PCond::Atom { field, op, lit: lit + 1, kind } };
+            }
+        }
+        rules.push(r);
+    }
     ParWorkload {
         rules,
         facts: [rng.range(-1, 3), rng.range(-1, 3), rng.range(-1, 3), rng.range(-1, 3)],
@@ -260,7 +298,7 @@ pub fn shrink(w: &ParWorkload) -> Vec<ParWorkload> {
         }
     }
     for i in 0..n {
-        let simple = PCond::Atom { field: 0, op: 5, lit: -5 };
+        let simple = PCond::Atom { field: 0, op: 5, lit: -5, kind: 0 };
         if w.rules[i].cond != simple {
             let mut c = w.clone();
             c.rules[i].cond = simple;
@@ -287,15 +325,15 @@ pub fn shrink(w: &ParWorkload) -> Vec<ParWorkload> {
 
 pub fn describe() -> (&'static str, Vec<&'static str>, Vec<&'static str>, Vec<&'static str>) {
     (
-        "workloads: 1-24 rules (salience from a pool with frequent ties, 1 in 8 disabled), typed-core conditions over 4 integer fields plus \
-         conditions calling a harness-registered pure custom function, optional assignment action, max_threads 1-16, min_rules_per_thread \
+        "workloads: 1-24 rules (salience from a pool with frequent ties, 1 in 8 disabled), typed-core conditions over 4 integer fields (1 literal in 8 typed as float or string instead, and 1 rule in 6 a near-twin of an earlier \
+         rule: same guard, literal typed differently or off by one) plus conditions calling a harness-registered pure custom function, optional assignment action, max_threads 1-16, min_rules_per_thread \
          1-4, parallelism on (5 in 6) and off; every workload runs under N seeded schedules. evaluations = schedules executed. A schedule is \
          non-trivial iff at least one salience level was really run by >=2 worker threads; distinct counts workloads (the observable does not \
          expose the interleaving, so schedules of one workload are not told apart)",
         vec!["ParallelRuleEngine", "KnowledgeBase", "Facts (RwLocks are shuttle's)", "condition evaluators of parallel.rs"],
         vec!["thread scheduler (shuttle RandomScheduler / PCT, seeded)", "the caller", "custom function isPos (harness, pure)"],
         vec![
-            "the reference is the same engine with parallelism off on a deep copy of the initial facts; the harness's own typed-core evaluation is a second reference used only when the run left the facts unchanged",
+            "the reference is the same engine with parallelism off on a deep copy of the initial facts; the harness's own typed-core evaluation is a second reference used only when the run left the facts unchanged, and only for rules whose literals are integers like the fields",
             "rule sets with condition kinds that write facts while workers read them (accumulate) are outside the typed core and not generated",
             "max_threads >= 1 (the property's range)",
         ],
